@@ -16,7 +16,13 @@ R04d second line of defence: an interrupt aborted in this tick is still resumed 
      PInterpreter._visit_children every `self.visit(child)` is dominated by the false outcome of
      `self._is_in_ended_block(child)` itself (a conjunction with another condition does not establish it), for the
      main flow and for interrupts alike.
-Decides these orderings; tick-exact interleaving of condition, cancel, force and End block is not decided.
+R04e request-state model (opstatic/condnode.py): the visitor generator of each node class is explored exhaustively over the
+     boolean request/activation attributes of the node, with a user cancel or force possible at every yield - accepted
+     exactly when the class' own `cancellable` / `forcible` (most derived override) says so - and a fresh generator possible
+     from any reachable state. In no reachable state is the body invoked with the cancel flag set: the property that accepts
+     a cancel, the tests the visitor makes after resuming and the activation helper agree.
+Decides these orderings and, for cancel/force, every interleaving of requests with the visitor's yields over the boolean
+abstraction; the timing of End block relative to a tick is decided by R04c/R04d only.
 """
 from __future__ import annotations
 
@@ -25,6 +31,7 @@ import ast
 from ..model import AnchorError, norm, walk_no_nested
 from ..util import cfg_of, call_attr, node_calls, assigned_attrs
 from ..cfg import facts_at
+from ..condnode import CondModel
 
 EXPLANATION = __doc__
 PI = "openpectus.lang.exec.pinterpreter:PInterpreter"
@@ -195,3 +202,24 @@ def run(ctx) -> None:
             ctx.fail("R04d", vc, n.ast, inst, "a child can be visited although it lies in a block that has ended (the ended-block test is "
                      "missing or weakened by a further condition): an Alarm that was aborted in this tick is resumed once more, "
                      "re-arms itself and its body runs after the block has ended")
+
+    # ---- R04e
+    ctx.rule("R04e", "no reachable request history invokes the body of a cancelled Watch/Alarm")
+    for kname, vname in (("WatchNode", "visit_WatchNode"), ("AlarmNode", "visit_AlarmNode")):
+        kls = prog.cls("openpectus.lang.model.ast:" + kname)
+        f = pi.methods[vname]
+        m = CondModel(prog, ctx.res, kls, f)
+        for q in m.b._funcs:
+            ctx.analysed(q)
+        inst = f"{vname}: body never invoked with the cancel flag set ({len(m.reach)} reachable points, {m.events} request interleavings)"
+        bad = [bk for bk in m.body_states if m.cancelled(bk[2])]
+        if len(m.reach) < 10 or not m.body_states:
+            raise AnchorError(f"{vname}: request-state exploration is degenerate ({len(m.reach)} points, {len(m.body_states)} body states)")
+        if not bad:
+            ctx.ok("R04e", inst, {"rule": "R04e", "state": sorted(m.b.vars), "inlined": sorted(m.it.inlined),
+                                  "cancel_flag": sorted(m.cancel_attrs), "body_states": len(m.body_states)})
+        else:
+            bn = m.g.nodes[bad[0][1]]
+            ctx.fail("R04e", f, bn.ast, f"{vname}: body never invoked with the cancel flag set",
+                     f"the body of a cancelled {kname[:-4]} runs: a cancel request is accepted at a point after which the visitor no "
+                     f"longer tests the flag | history: {m.history(bad[0])}")
